@@ -70,11 +70,11 @@ fn solid3(r: &mut Rng) -> Vec<d3::Point<f64>> {
 }
 
 pub fn gen(r: &mut Rng, thorough: bool) -> Vec<(String, String)> {
-    let n = if thorough { 1500 } else { 300 };
+    let n = if thorough { 900 } else { 300 };
     let mut v = Vec::new();
     for it in 0..n {
         let kind = r.below(10);
-        let np = if r.below(10) == 0 { 3 + r.below(if thorough { 2000 } else { 400 }) as usize } else { 3 + r.below(40) as usize };
+        let np = if r.below(10) == 0 { 3 + r.below(if thorough { 1200 } else { 400 }) as usize } else { 3 + r.below(40) as usize };
         let pts = cloud2(r, kind, np);
         let s = format!("{} {}", pts.len(), pts.iter().map(d2::hp).collect::<Vec<_>>().join(" "));
         v.push(("hull2".into(), s.clone()));
@@ -83,7 +83,7 @@ pub fn gen(r: &mut Rng, thorough: bool) -> Vec<(String, String)> {
         if it % 3 == 1 { let p3 = solid3(r); v.push(("hull3".into(), format!("{} {}", p3.len(), p3.iter().map(d3::hp).collect::<Vec<_>>().join(" ")))); }
         if it % 3 == 0 {
             let k3 = r.below(6);
-            let np3 = if r.below(8) == 0 { 4 + r.below(if thorough { 1500 } else { 300 }) as usize } else { 4 + r.below(60) as usize };
+            let np3 = if r.below(8) == 0 { 4 + r.below(if thorough { 700 } else { 300 }) as usize } else { 4 + r.below(60) as usize };
             let p3 = cloud3(r, k3, np3);
             v.push(("hull3".into(), format!("{} {}", p3.len(), p3.iter().map(d3::hp).collect::<Vec<_>>().join(" "))));
         }
